@@ -4,6 +4,7 @@
    Nothing here mentions GeneratedCtl.v; the agreement theorems are one file per translated function
    (proofs/GenCtlAgree_*.v) so that a source change breaks only the properties that function serves. *)
 From Coq Require Import String.
+From Flocq Require Import BinarySingleNaN.
 From Esc Require Export GenCtlBase.
 Open Scope Z_scope.
 
@@ -41,6 +42,10 @@ Proof. unfold zlen. simpl List.length. lia. Qed.
 Lemma zlen_nonneg {A} (l : list A) : 0 <= zlen l. Proof. unfold zlen. lia. Qed.
 Lemma zlen_zero {A} (l : list A) : zlen l = 0 -> l = [].
 Proof. destruct l; [reflexivity|]. intros H. pose proof (zlen_cons_pos a l). lia. Qed.
+
+(* `a > b` and `b < a` are the same float comparison *)
+Lemma fgt_flt x y : fgt x y = flt y x.
+Proof. unfold fgt, flt. rewrite (Bcompare_swap _ _ y x). destruct (Bcompare y x) as [[]|]; reflexivity. Qed.
 
 Lemma existsb_ext' {A} (f g : A -> bool) l : (forall x, f x = g x) -> existsb f l = existsb g l.
 Proof. intros H. induction l; simpl; [reflexivity|]. rewrite H, IHl. reflexivity. Qed.
